@@ -421,6 +421,32 @@ theorem reachSet_spec (G : Graph n) (a b : Fin n) (h : (reachSet G a).2 = true) 
   · intro hr
     exact closed_reach G _ h hr (subset_expandN G n [a] a (List.mem_singleton.mpr rfl))
 
+theorem Reach.head {G : Graph n} {a b c : Fin n} (h : b ∈ G a) (hr : Reach G b c) : Reach G a c :=
+  Reach.trans (Reach.step (Reach.refl a) h) hr
+
+theorem mem_reverseGraph (G : Graph n) (i j : Fin n) : i ∈ reverseGraph G j ↔ j ∈ G i := by
+  unfold reverseGraph
+  simp [List.mem_filter]
+
+theorem reach_reverse (G : Graph n) (a b : Fin n) : Reach (reverseGraph G) a b ↔ Reach G b a := by
+  constructor
+  · intro h
+    induction h with
+    | refl => exact Reach.refl _
+    | step _ hc ih => exact Reach.head ((mem_reverseGraph G _ _).mp hc) ih
+  · intro h
+    induction h with
+    | refl => exact Reach.refl _
+    | step _ hc ih => exact Reach.head ((mem_reverseGraph G _ _).mpr hc) ih
+
+/-- forward and backward reachability from one vertex is strong connectivity -/
+theorem connectedDecision_iff_strong (G : Graph n) (hn : 0 < n) : ConnectedDecision G ↔ StronglyConnected G := by
+  constructor
+  · rintro ⟨hf, hb⟩ a b
+    exact Reach.trans ((reach_reverse G _ _).mp (hb hn a)) (hf hn b)
+  · intro h
+    exact ⟨fun _ b => h _ b, fun _ b => (reach_reverse G _ _).mpr (h b _)⟩
+
 theorem reach_relabel (π : Equiv.Perm (Fin n)) (G : Graph n) {a b : Fin n} (h : Reach G a b) :
     Reach (relabelGraph π π.symm G) (π.symm a) (π.symm b) := by
   induction h with
